@@ -105,17 +105,24 @@ func Harness_C01_MultiRecord() {
 	for i := range recs {
 		text += recs[i].write(i < k-1 || final)
 	}
-	var got []poly.Sequence
+	var got, again []poly.Sequence
 	alone := make([]poly.Sequence, k)
+	var buf []byte
+	whole := text
 	panicked := vPanics(func() {
 		if flat {
 			hdr := ""
 			for i := 0; i < 10; i++ {
 				hdr += "GBSYN" + gItoa(i) + ".SEQ  header line\n"
 			}
-			got = ParseFlat([]byte(hdr + text))
+			whole = hdr + text
+			buf = []byte(whole)
+			got = ParseFlat(buf)
+			again = ParseFlat(buf) // the same buffer read a second time
 		} else {
-			got = ParseMulti([]byte(text))
+			buf = []byte(whole)
+			got = ParseMulti(buf)
+			again = got
 		}
 		for i := range recs {
 			alone[i] = Parse([]byte(recs[i].write(true)))
@@ -125,6 +132,8 @@ func Harness_C01_MultiRecord() {
 	if panicked {
 		return
 	}
+	vAssert(vEqStr(string(buf), whole), "parser-leaves-its-input-untouched")
+	vAssert(len(again) == k, "reading-the-same-buffer-again-gives-k-results")
 	vAssert(len(got) == k, "k-records-give-k-results")
 	if len(got) == k {
 		for i := range recs {
